@@ -25,10 +25,45 @@ SHARDS = {'quick': 16, 'thorough': 16}
 def make_judges(ctx):
     mon = ctx.mon
 
+    def floordiv_into(ev, ai):
+        """x // y written to a destination (out= / out_like=) that can hold floor(x/y): the stored value is floor(x/y) exactly"""
+        x, y = ai.x, ai.y
+        t = ai.out_pre if ai.out is not None else ai.out_like_pre
+        if t is None or not (A.usable(x) and A.usable(y) and A.usable(t)) or any(k == 0 for k in y.codes) or x.n_word > 63 or y.n_word > 63 or not (1 <= t.n_word <= 63):
+            ctx.skip('div:floordiv into a destination outside the model')
+            return
+        if not t.signed and (x.signed or y.signed):
+            ctx.skip('div:signed result into unsigned target is rejected')
+            return
+        ex = A.exact_op('floordiv', A.fr_array(x), A.fr_array(y))
+        exf, shape = A.flat(ex)
+        lo, hi = R.code_range(t.signed, t.n_word)
+        sc = F(2) ** t.n_frac
+        if any((e * sc).denominator != 1 or not (lo <= e * sc <= hi) for e in exf):
+            ctx.skip('div:floordiv into a destination that cannot hold the quotient')
+            return
+        if ev.exc is not None:
+            ctx.violation('raises', '%s floordiv %s into %s raised %s: %s' % (R.dtype_fxp(*x.fmt()), R.dtype_fxp(*y.fmt()), R.dtype_fxp(*t.fmt()), type(ev.exc).__name__, str(ev.exc)[:160]), ev)
+            return
+        res = ai.res
+        if res is None or res.fmt() != t.fmt():
+            ctx.violation('format', 'floordiv into %s returned %s' % (R.dtype_fxp(*t.fmt()), res and R.dtype_fxp(*res.fmt())), ev)
+            return
+        want = [int(e * sc) for e in exf]
+        if res.codes != want:
+            j = next(j for j, (a_, b_) in enumerate(zip(res.codes, want)) if a_ != b_)
+            ctx.violation('wrong_value', '%s floordiv %s into %s: element %d: floor of the quotient is %s, library value %s' % (
+                R.dtype_fxp(*x.fmt()), R.dtype_fxp(*y.fmt()), R.dtype_fxp(*t.fmt()), j, exf[j], F(res.codes[j]) / sc if isinstance(res.codes[j], int) else res.codes[j]), ev)
+        ctx.judged(('floordiv-into', 's' if t.signed else 'u', G.word_class(t.n_word), t.n_frac > 0, max(abs(w_) for w_ in want).bit_length() > 53), True, None, elements=len(want))
+        if t.n_frac > 0:
+            ctx.floor_hit(('floordiv-into-fraction-bits',))
+
     def div_judge(ev):
         ai = A.decode_arith(ev, mon)
         if ai is None or ai.op not in ('truediv', 'floordiv', 'mod'):
             return
+        if ai.op == 'floordiv' and (ai.out is not None or ai.out_like is not None) and ai.x is not None and ai.y is not None and ai.method == 'raw':
+            return floordiv_into(ev, ai)
         if ai.sizing != 'optimal' or ai.out is not None or ai.out_like is not None or ai.x is None or ai.y is None:
             ctx.skip('div:imposed format or constant')
             return
@@ -40,9 +75,12 @@ def make_judges(ctx):
             ctx.skip('div:zero divisor')
             return
         efmt = A.optimal_format(ai.op, x.fmt(), y.fmt())
-        if efmt[1] < 1 or efmt[1] > 53 or x.n_word > 53 or y.n_word > 53:
+        wlim = 63 if ai.method == 'raw' else 53         # (the value method works on doubles; the integer method is exact for any operand that yields a result word <= 53)
+        if efmt[1] < 1 or efmt[1] > 53 or x.n_word > wlim or y.n_word > wlim:
             ctx.skip('div:degenerate or wide result format')
             return
+        if x.n_word > 53 or y.n_word > 53:
+            ctx.floor_hit(('wide-operand', ai.op))
         if ev.exc is not None:
             ctx.violation('raises', '%s %s %s raised %s: %s' % (R.dtype_fxp(*x.fmt()), ai.op, R.dtype_fxp(*y.fmt()), type(ev.exc).__name__, str(ev.exc)[:160]), ev)
             return
@@ -103,7 +141,7 @@ def make_judges(ctx):
 
 
 def floors(tier):
-    return [('op', op, sg, m) for op in ('truediv', 'floordiv', 'mod') for sg in ('ss', 'su', 'us', 'uu') for m in ('raw', 'repr')] + [('special', 'multiple'), ('special', 'widealign')]
+    return [('op', op, sg, m) for op in ('truediv', 'floordiv', 'mod') for sg in ('ss', 'su', 'us', 'uu') for m in ('raw', 'repr')] + [('special', 'multiple'), ('special', 'widealign'), ('floordiv-into-fraction-bits',), ('wide-operand', 'floordiv')]
 
 
 def fmts(wmax):
@@ -170,7 +208,7 @@ def run_case(case, ctx):
     j //= 3
     hist = j % 4 == 1
     j //= 4
-    special = ('', 'multiple', 'widealign', '')[j % 4]
+    special = ('', 'multiple', 'widealign', 'wideop')[j % 4]
     for _ in range(50):
         sx, sy = rng.random() < 0.5, rng.random() < 0.5
         wx, wy = rng.randint(1, 40), rng.randint(1, 40)
@@ -185,13 +223,25 @@ def run_case(case, ctx):
             fx, fy = rng.randint(0, 3), wy - rng.randint(0, 3)
             if rng.random() < 0.5:
                 (wx, fx), (wy, fy) = (wy, fy), (wx, fx)
+        if special == 'wideop':
+            # a dividend (or divisor) word of 54..63 bits with so many fraction bits that every result word stays short: each of its bits counts for the floor
+            sx = sy = rng.random() < 0.6
+            if rng.random() < 0.3:
+                sy = not sx
+            wx = rng.randint(54, 62)
+            fx = wx - rng.randint(2, 9)
+            wy, fy = rng.randint(2, 8), rng.randint(0, 3)
+            if not sx and sy and rng.random() < 0.5:
+                fx = 0
+                wx = 55
+                wy, fy = 4, -3
         if special == 'multiple':
             wy = rng.randint(6, 12)
             wx = rng.randint(wy, 24)
             fx = fy = rng.choice([0, 0, 1, 3])
         X, Y = (sx, wx, fx), (sy, wy, fy)
         ws = [R.fmt_truediv(X, Y)[1], R.fmt_floordiv(X, Y)[1], R.fmt_mod(X, Y)[1]]
-        if (max(ws) <= 53 or (special == 'widealign' and ws[2] <= 53)) and min(ws) >= 1:
+        if (max(ws) <= 53 or (special == 'widealign' and ws[2] <= 53) or (special == 'wideop' and ws[1] <= 53)) and min(ws) >= 1:
             break
     else:
         return
@@ -199,6 +249,9 @@ def run_case(case, ctx):
     loy, hiy = R.code_range(*Y[:2])
 
     def vx():
+        if special == 'wideop':
+            m_ = rng.randint(1, max(1, (hix >> (fx if fx > 0 else 0)) - 1)) << max(fx, 0)      # a whole multiple of ... minus / plus one LSB
+            return max(lox, min(hix, rng.choice([m_ - 1, m_ + 1, hix, lox, rng.randint(lox, hix)])))
         return rng.choice([lox, hix, rng.randint(lox, hix), rng.randint(lox, hix)])
 
     def vy():
@@ -247,8 +300,20 @@ def run_case(case, ctx):
     _try(lambda: np.true_divide(x, y))
     _try(lambda: np.floor_divide(x, y))
     _try(lambda: np.mod(x, y))
+    # the floor quotient written to a destination that has fraction bits (and can hold it)
+    if method == 'raw':
+        xa, ya = np.asarray(cx, dtype=object).ravel().tolist(), np.asarray(cy, dtype=object).ravel().tolist()
+        if len(xa) == len(ya):
+            qs = [(F(a_) / F(2) ** fx) / (F(b_) / F(2) ** fy) for a_, b_ in zip(xa, ya)]
+            qb = max(abs(q_.numerator // q_.denominator) for q_ in qs).bit_length() + 1
+            for wt in (53, rng.randint(min(52, max(qb + 1, 20)), 52)):
+                ft = wt - 1 - qb
+                if ft >= 1:
+                    _try(lambda: fm.floordiv(x, y, out_like=Fxp(None, True, wt, ft)))
+                    _try(lambda: fm.floordiv(x, y, out=Fxp(np.zeros(np.shape(cx)) if np.ndim(cx) else None, True, wt, ft)))
+                    _try(lambda: np.floor_divide(x, y, out=Fxp(np.zeros(np.shape(cx)) if np.ndim(cx) else None, True, wt, ft)))
     # the identity (x//y)*y + x%y == x through the library itself
-    if fl is not None and md is not None:
+    if fl is not None and md is not None and max(wx, wy) <= 53:      # (the comparison itself goes through doubles beyond that)
         try:
             back = fl * y + md
             same = np.all(np.asarray((back == x)))
